@@ -87,12 +87,21 @@ class ClassInfo:
                 self.methods[st.name] = st
 
 
+class MissingFunction(KeyError):
+    """a function the contracts speak about is not in the source any more (renamed, removed, merged)"""
+
+
+class FuncTable(dict):
+    def __missing__(self, key):
+        raise MissingFunction(key)
+
+
 class Source:
     def __init__(self, repo=None):
         self.repo = repo or REPO
         self.trees = {}
         self.text = {}
-        self.funcs = {}        # key -> FuncInfo
+        self.funcs = FuncTable()        # key -> FuncInfo
         self.classes = {}      # name -> ClassInfo
         self.globals = {}      # module -> {name: ('const', ast expr) | ('import', dotted) | ('func', key) | ('class', name)}
         self.module_assign_targets = {}   # module -> set of global names assigned at module level
@@ -189,6 +198,62 @@ class Source:
         for c in reversed(self.mro(cls)):
             out.extend(self.classes[c].fields)
         return out
+
+    READ_ONLY_METHODS = ('get', 'keys', 'values', 'items', 'copy')
+
+    def read_only_tables(self):
+        """module-level dict literals that the whole package only ever READS: every occurrence of the name (in any
+        module, also as module.NAME) is a subscript load, a membership test, a read-only method call, len(), an
+        iteration or a ** unpack.  Such a table cannot be aliased or written (dynamic access to module
+        attributes is excluded by the confinement scan of C02), so it is the same object with the same content
+        throughout."""
+        if getattr(self, '_ro_tables', None) is not None:
+            return self._ro_tables
+        cands = {}
+        for m, g in self.globals.items():
+            for name, (kind, v) in g.items():
+                if kind == 'const' and isinstance(v, ast.Dict):
+                    cands[name] = cands.get(name, 0) + 1
+        bad = {n for n, k in cands.items() if k != 1}
+        for m, tree in self.trees.items():
+            parents = {}
+            for p in ast.walk(tree):
+                for c in ast.iter_child_nodes(p):
+                    parents[id(c)] = p
+            for n in ast.walk(tree):
+                name = n.id if isinstance(n, ast.Name) else n.attr if isinstance(n, ast.Attribute) else None
+                if name not in cands or name in bad:
+                    continue
+                p = parents.get(id(n))
+                if isinstance(n.ctx, ast.Store):
+                    # the one module-level definition (plain or annotated)
+                    if isinstance(p, (ast.Assign, ast.AnnAssign)) and parents.get(id(p)) is tree:
+                        continue
+                    bad.add(name)
+                    continue
+                if isinstance(n.ctx, ast.Del):
+                    bad.add(name)
+                    continue
+                ok = False
+                if isinstance(p, ast.Subscript) and p.value is n and isinstance(p.ctx, ast.Load):
+                    ok = True
+                elif isinstance(p, ast.Compare) and n in p.comparators and all(isinstance(o, (ast.In, ast.NotIn)) for o in p.ops):
+                    ok = True
+                elif isinstance(p, ast.Attribute) and p.value is n and p.attr in self.READ_ONLY_METHODS \
+                        and isinstance(parents.get(id(p)), ast.Call) and parents[id(p)].func is p:
+                    ok = True
+                elif isinstance(p, ast.Call) and isinstance(p.func, ast.Name) and p.func.id == 'len' and p.args == [n]:
+                    ok = True
+                elif isinstance(p, (ast.For, ast.comprehension)) and p.iter is n:
+                    ok = True
+                elif isinstance(p, ast.Dict) and n in p.values and p.keys[p.values.index(n)] is None:
+                    ok = True          # {**TABLE}
+                elif isinstance(p, ast.alias):
+                    ok = True
+                if not ok:
+                    bad.add(name)
+        self._ro_tables = {n for n in cands if n not in bad}
+        return self._ro_tables
 
     def const(self, module, name):
         kind, v = self.globals[module][name]
